@@ -377,3 +377,23 @@ Proof.
   - apply check_cross_sound. exact H1.
   - apply (check_blockdeps_pairs (hz_hw c) evs None H2).
 Qed.
+
+(* ================================================================= a non-trivial instance *)
+(* the stream api.npu_generate_register_command_stream emits for [DMA into the IFM of an average
+   pool ; that average pool] on Ethos-U55-64 (test_dma_op of the repository): accepted; the same
+   stream without its DMA_WAIT word: rejected *)
+Definition ex_words : list Z :=
+  [304; 16432; 147456; 131377; 16433; 0; 16434; 26880; 16; 131343; 16384; 0; 16385; 0; 16386; 0; 16387; 0;
+   2031883; 2031884; 1900810; 1769732; 16390; 1; 16389; 840; 16388; 28; 8388873; 261; 263; 256; 131329; 259;
+   196866; 131359; 16400; 23504; 16401; 0; 16402; 0; 16403; 0; 590107; 590108; 590106; 590098; 590097; 1769747;
+   16406; 1; 16405; 280; 16404; 28; 8388888; 276; 65825; 459040; 37749026; 293; 294; 16711975; 196886; 196885;
+   983319; 524557; 786733; 292; 303; 17; 65541; 4294901760].
+
+Definition ex_cfg : hzcfg :=
+  {| hz_hw := {| hw_ncores := 1; hw_lut_addr := 14336; hw_shram_size := 16384 |}; hz_max_dma := 1; hz_max_kern := 2 |}.
+
+Example hazards_example :
+  (exists evs, run_stream ex_words = Some evs /\ check_hazards ex_cfg evs = true) /\
+  (exists evs, run_stream (filter (fun w => negb (w mod 65536 =? 17)) ex_words) = Some evs /\
+               check_hazards ex_cfg evs = false).
+Proof. split; eexists; split; vm_compute; reflexivity. Qed.
